@@ -6,7 +6,7 @@ from vlib import coq_value, coq_path, coq_opt, coq_bool, coq_hex
 import gen
 
 ID = "C19"
-THEOREMS = ["C19_union_sound", "C19_union_sound_any_fuel", "C19_union_exact_vs_json_refuted",
+THEOREMS = ["C19_union_sound", "C19_union_sound_any_fuel", "C19_fuel_adequate", "C19_union_exact_vs_json_refuted",
             "C19_get_sound", "C19_get_sound_nonneg", "C19_kget_sound", "C19_get_negidx_optional_refuted",
             "C19_superset_sound", "C19_superset_exact_any_refuted",
             "C19_insert_sound", "C19_negidx_insert_refuted", "C19_insert_coerce_required_refuted",
@@ -29,8 +29,7 @@ MANIFEST = {
             "is unsound are refuted by vm_compute witnesses and recorded as known findings. The model is tied to the "
             "code by running the six operations, the value-level CRUD and a Rust-side membership function on generated "
             "(kind, value-from-kind, path) cases through both the implementation and the Gallina definitions.",
-    "note": "Partial: merge with Overwrite is checked by the correspondence/oracle run only (refuted in general); fuel adequacy of the kind-recursive functions is not proved (theorems hold "
-            "for every fuel). Trusted: Coq kernel + vm_compute, the hand-written models Model/Kind.v, Model/KindCrud.v "
+    "note": "Partial: merge with Overwrite is checked by the correspondence/oracle run only (refuted in general); the insert branch for negative indices into arrays with unknown elements is refuted. Trusted: Coq kernel + vm_compute, the hand-written models Model/Kind.v, Model/KindCrud.v "
             "(tied by correspondence), harness Kind codec, Python generator. No axioms.",
     "design_ref": "DESIGN.md section 5 C19",
 }
